@@ -17,6 +17,38 @@ type stepCase struct {
 	Node    string       `json:"node"`
 	Bs      M            `json:"bs"`
 	Pending interface{}  `json:"pending"`
+	// Setup says how the specification object was prepared (see c04Setups); "" = compiled once.
+	Setup string `json:"setup,omitempty"`
+}
+
+// c04Setups: other ways to arrive at "the compiled specification" that must not change what a step does:
+// compiled twice (forced / not forced), and an ErrorNode named by the author (the default name written
+// out, or a node of the author's own).  ErrorNode says where a machine goes that followed no branch after
+// an action; it is not one of the three action-error settings.
+var c04Setups = []string{"twice", "twice-unforced", "errornode=error", "errornode=errh"}
+
+func c04Build(as *rstep.ASpec, setup string) (*core.Spec, error) {
+	spec := as.Raw()
+	switch setup {
+	case "errornode=error":
+		spec.ErrorNode = "error"
+	case "errornode=errh":
+		spec.ErrorNode = "errh"
+	}
+	if err := spec.Compile(context.Background(), nil, true); err != nil {
+		return nil, err
+	}
+	switch setup {
+	case "twice":
+		if err := spec.Compile(context.Background(), nil, true); err != nil {
+			return nil, err
+		}
+	case "twice-unforced":
+		if err := spec.Compile(context.Background(), nil, false); err != nil {
+			return nil, err
+		}
+	}
+	return spec, nil
 }
 
 func c04Actions(native bool) []*actlang.Prog {
@@ -249,7 +281,7 @@ func C04(c *vh.Ctx) {
 			c.NotExhaustive("cannot load replay: " + err.Error())
 			return
 		}
-		spec, err := cs.Spec.Build()
+		spec, err := c04Build(cs.Spec, cs.Setup)
 		if err != nil {
 			c.NotExhaustive("replay spec does not compile: " + err.Error())
 			return
@@ -257,7 +289,7 @@ func C04(c *vh.Ctx) {
 		checkStep(c, spec, cs)
 		return
 	}
-	c.Rule("every node configuration = language {native, ecmascript} x action (10) x branching type {message, bindings, default} x branch list (none | one of patterns x guards x targets | that followed by a second branch) x error settings (ActionErrorBranches x ActionErrorNode) x state bindings x pending message, plus an unknown current node; each executed on the real Spec.Step and compared with the reference rule (set of allowed outcomes). Odometer enumeration, duplicate-free; non-trivial = the step moved, consumed, emitted or failed.")
+	c.Rule("every node configuration = language {native, ecmascript} x action (10) x branching type {message, bindings, default} x branch list (none | one of patterns x guards x targets | that followed by a second branch) x error settings (ActionErrorBranches x ActionErrorNode) x preparation of the specification object (compiled once; for every 5th branch list [all] also compiled twice forced/unforced, ErrorNode written out as \"error\" or set to a node of the author) x state bindings x pending message, plus an unknown current node; each executed on the real Spec.Step and compared with the reference rule (set of allowed outcomes). Odometer enumeration, duplicate-free; non-trivial = the step moved, consumed, emitted or failed.")
 	forEachStepCase(c, !c.Quick(), func(spec *core.Spec, cs stepCase, li int) {
 		checkStep(c, spec, cs)
 		if c.WantSample() && cs.Spec.Nodes["n0"].Action != nil && li > 200 {
@@ -309,6 +341,27 @@ func forEachStepCase(c *vh.Ctx, thorough bool, f func(spec *core.Spec, cs stepCa
 								for _, p := range c04Pendings {
 									cs := stepCase{Spec: &as2, Node: "n0", Bs: bs, Pending: p}
 									f(spec, cs, li)
+								}
+							}
+						}
+					}
+					// the same node in a specification object prepared differently (every 5th list in quick)
+					if act != nil && (thorough || li < 0 || li%5 == 0) {
+						for _, setup := range c04Setups {
+							for _, aeb := range []bool{false, true} {
+								for _, aen := range []string{"", "errh"} {
+									as2 := *as
+									as2.ActionErrorBranches, as2.ActionErrorNode = aeb, aen
+									spec2, err := c04Build(&as2, setup)
+									if err != nil {
+										c.Violation(c.R.Check+"/compile-failed/"+setup, "generated spec does not compile ("+setup+"): "+err.Error(), as2)
+										continue
+									}
+									for _, bs := range c04States {
+										for _, p := range c04Pendings {
+											f(spec2, stepCase{Spec: &as2, Node: "n0", Bs: bs, Pending: p, Setup: setup}, li)
+										}
+									}
 								}
 							}
 						}
